@@ -155,6 +155,36 @@ pub(super) fn deliver(k: &mut Kernel, pkt: &Packet, s: &TcpSegment) {
         return;
     }
 
+    // A segment for a connection that closed gracefully a moment ago. A
+    // FIN means the peer did not get our ACK of its FIN and retransmits:
+    // acknowledge it again, as a socket in TIME_WAIT would. Anything else
+    // (a late duplicate ACK) is absorbed silently. Neither is a reason to
+    // reset a peer that may still hold unread data.
+    if !s.flags.rst && k.in_time_wait(local, remote) {
+        if !s.flags.fin {
+            return;
+        }
+        let seg_len = s.payload.len() as u32 + 1;
+        emit(
+            k,
+            local,
+            remote,
+            TcpSegment {
+                src_port: local.port(),
+                dst_port: remote.port(),
+                seq: s.ack,
+                ack: s.seq.wrapping_add(seg_len),
+                flags: TcpFlags {
+                    ack: true,
+                    ..TcpFlags::default()
+                },
+                window: 0,
+                payload: Bytes::new(),
+            },
+        );
+        return;
+    }
+
     // Non-SYN to an unknown 4-tuple. RFC 793 says RST, unless the
     // segment is itself a RST (that would be infinite ping-pong).
     if !s.flags.rst {
@@ -834,7 +864,21 @@ pub(super) fn reap_closed(k: &mut Kernel) {
         .map(|(fd, _)| fd)
         .collect();
     for fd in victims {
-        k.sockets.remove(fd);
+        k.remove_socket(fd);
+    }
+}
+
+/// The connection key of `fd` if it is a connection that closed gracefully in
+/// both directions (as opposed to one that was reset, timed out, or never
+/// got that far): such a connection is remembered for a while after it is
+/// removed, see `Kernel::time_wait`.
+pub(super) fn time_wait_key(k: &Kernel, fd: Fd) -> Option<(SocketAddr, SocketAddr)> {
+    let st = k.sockets.get(fd)?;
+    let tcb = st.tcb.as_ref()?;
+    if tcb.state == TcpState::Closed && tcb.peer_fin && !tcb.reset && !tcb.timed_out {
+        k.sockets.connection_of(fd)
+    } else {
+        None
     }
 }
 
@@ -1252,6 +1296,7 @@ pub(super) fn poll_peek(
 /// interleaving harnesses see it as a quantum count. Tests care about
 /// "dropped packet → retx eventually happens," not exact timing.
 pub(super) fn check_retx(k: &mut Kernel) {
+    k.age_time_wait();
     let threshold = k.retx_threshold;
     let max = k.retx_max;
     let candidates: Vec<Fd> = k
